@@ -384,3 +384,46 @@ Definition layouts_upto (b : nat) : list layout :=
     (seq 1 b)) (seq 1 b)) (seq 1 b).
 Definition check_layout (Y : layout) : bool := wf_check (make_graph true Y).
 Definition check_upto (b : nat) : bool := forallb check_layout (layouts_upto b).
+
+(* ------------------------------------------------------------------ phase ordering check *)
+(* The hydro step is a chain of phases  gradient sweeps (GI GN GB) -> slope limiter (SL) -> primitive prediction (PP)
+   -> flux sweeps (FI FN FB) -> conserved update (UC) -> primitive update (UP)  = rank_of 0..5.  Semantic requirement
+   on the task table: per subgrid s, a task of phase k+1 that touches s is a CHILD of every task of phase k that
+   touches s, and every phase has a task touching s (so that the chain of direct edges orders any two phases).
+   [phases_ordered_find] returns the first offender; it is evaluated on the dumped REAL tables by props/c07.py. *)
+Definition rk (g : graph) (t : nat) : nat := rank_of (kind (tk g t)).
+Inductive po_offender :=
+  | PoMissingEdge (t1 t2 s : nat)    (* t1, t2 touch s, rank t2 = rank t1 + 1, t2 is not a child of t1 *)
+  | PoEmptyPhase (t k s : nat).      (* t touches s but no task of phase k does *)
+Fixpoint first_some {A B} (f : A -> option B) (l : list A) : option B :=
+  match l with
+  | [] => None
+  | x :: r => match f x with Some y => Some y | None => first_some f r end
+  end.
+Definition itasks (g : graph) : list (nat * task) := combine (seq 0 (length g)) g.
+Definition touching (g : graph) (s : nat) : list (nat * task) :=
+  filter (fun p => memb s (touches (snd p))) (itasks g).
+Definition trank (p : nat * task) : nat := rank_of (kind (snd p)).
+Definition bad_next (L : list (nat * task)) : option (nat * nat) :=
+  first_some (fun p1 => first_some (fun p2 =>
+    if trank p2 =? S (trank p1)
+    then (if memb (fst p2) (children (snd p1)) then None else Some (fst p1, fst p2))
+    else None) L) L.
+Definition bad_chain (L : list (nat * task)) : option (nat * nat) :=
+  match L with
+  | [] => None
+  | p :: _ => first_some (fun k => if existsb (fun q => trank q =? k) L then None else Some (fst p, k)) (seq 0 6)
+  end.
+Definition smax (g : graph) : nat := list_max (flat_map touches g).
+Definition phases_ordered_find (g : graph) : option po_offender :=
+  first_some (fun s =>
+    let L := touching g s in
+    match bad_next L with
+    | Some (a, b) => Some (PoMissingEdge a b s)
+    | None => match bad_chain L with
+              | Some (t, k) => Some (PoEmptyPhase t k s)
+              | None => None
+              end
+    end) (seq 0 (S (smax g))).
+Definition phases_ordered_check (g : graph) : bool :=
+  match phases_ordered_find g with None => true | Some _ => false end.
